@@ -30,7 +30,7 @@ REQUIRED_MONITORS = ('cli_vs_library_bytes', 'discovery_vs_truth', 'discovery_ha
 REQUIRED_CLASSES = ('mol:explicit-only', 'mol:explicit+auto', 'auto-only', 'exclude', 'exclude:several', 'output:given', 'output:default',
                     'input:other-directory', 'distractor:absent-species-topology', 'distractor:foreign-coordinates',
                     'distractor:unknown-extension', 'distractor:system-file-in-list', 'distractor:previous-output', 'distractor:impostor-topology',
-                    'species-without-end-files', 'explicit-also-in-list', 'explicit-also-in-list:every-file-spelled-differently', 'order:small-species-before-a-searched-one', 'mol:end-topology-named-differently', 'candidates:files-listed-twice', 'paths:explicit-and-listed-spelled-differently', 'scale:non-default', 'output-path:absolute',
+                    'species-without-end-files', 'explicit-also-in-list', 'explicit-also-in-list:every-file-spelled-differently', 'order:small-species-before-a-searched-one', 'output:path-holds-the-result-of-an-earlier-run', 'mol:end-topology-named-differently', 'candidates:files-listed-twice', 'paths:explicit-and-listed-spelled-differently', 'scale:non-default', 'output-path:absolute',
                     'output-path:relative-plain', 'output-path:relative-subdir')
 RULE = ('generated directories of 2-4 species with distractor files (topologies of absent species, foreign coordinate files, '
         'unknown extensions, the system file and a previous output in the candidate list, a species without end files) x '
@@ -428,6 +428,11 @@ def run_world(ctx, case):
             recorded['ref'] = refrence_coordinates
             return real(*args, **kwargs)
         return auto_map
+    if (i // 2) % 2 == 0 and w.get('previous_output'):
+        # a re-run: the place where the result goes already holds the result of an earlier run (another seed and scale)
+        os.makedirs(os.path.dirname(expected_abs), exist_ok=True)
+        shutil.copyfile(w['previous_output'], expected_abs)
+        ctx.hit('output:path-holds-the-result-of-an-earlier-run')
     before_files = {os.path.join(dp, f) for dp, _, fs in os.walk(root) for f in fs}
     old_argv, old_cwd, old_steps = sys.argv, os.getcwd(), Alignment.STEPS_FACTOR
     real_auto_map = cli.auto_map
